@@ -434,6 +434,7 @@ func c05(r *core.Report) {
 	c05ArraySize(r)
 	c05Found(r)
 	c05NumKinds(r)
+	c05Joined(r)
 	_ = p
 }
 
